@@ -1133,6 +1133,20 @@ fn main() {
         }
         c.fns.extend(synth);
     }
+    // a trait-impl method that has an inherent method of the same type and name next to it
+    // (`impl ContractOverrides for AllowList { fn transfer }` beside `impl AllowList { fn transfer }`)
+    // gets the three-segment key `Type::Trait::method`; it is selected only when named explicitly
+    // (never by "*") — formerly such a pair was an "ambiguous function key" error.
+    {
+        let inherent: BTreeSet<String> = c.fns.iter().filter(|f| f.trait_name.is_none()).map(|f| f.key.clone()).collect();
+        for f in c.fns.iter_mut() {
+            if !f.in_trait_decl && inherent.contains(&f.key) {
+                if let (Some(t), Some(ty)) = (f.trait_name.clone(), f.impl_type.clone()) {
+                    f.key = format!("{}::{}::{}", ty, t, f.sig.ident);
+                }
+            }
+        }
+    }
     // selection
     let sel: Vec<String> = job["fns"].as_array().map(|a| a.iter().map(|v| v.as_str().unwrap().to_string()).collect()).unwrap_or_default();
     let all = sel.iter().any(|s| s == "*");
@@ -1143,7 +1157,8 @@ fn main() {
     let mut seen = BTreeSet::new();
     for f in &c.fns {
         let fk = format!("{}#{}", f.file, f.key);
-        let want = (all || sel.contains(&f.key) || sel.contains(&fk)) && !exclude.contains(&f.key) && !exclude.contains(&fk);
+        let shadowed = f.trait_name.is_some() && f.key.matches("::").count() == 2;
+        let want = ((all && !shadowed) || sel.contains(&f.key) || sel.contains(&fk)) && !exclude.contains(&f.key) && !exclude.contains(&fk);
         if want {
             if !seen.insert(f.key.clone()) {
                 errors.push(format!("ambiguous function key {} (second definition in {})", f.key, f.file));
